@@ -348,11 +348,24 @@ def wait_for(paths, timeout=20.0):
     return False
 
 
+JOBS = max(1, int(os.environ.get("VERIF_JOBS", "2")))
+
+
+def pmap(fn, items):
+    from concurrent.futures import ThreadPoolExecutor
+    items = list(items)
+    if JOBS <= 1 or len(items) <= 1:
+        return [fn(x) for x in items]
+    with ThreadPoolExecutor(max_workers=JOBS) as ex:
+        return list(ex.map(fn, items))
+
+
 def drive(ctx, scratch, cases):
-    """run every history through the real manager; returns observed {target: text} per case"""
-    reqs = []
-    for i, c in enumerate(cases):
-        d = os.path.join(scratch, "h%d" % i)
+    """Run every history through the real manager.  Small histories share one driver process; each history with more than 64 ops
+    gets its own process under a timeout.  A driver that dies, hangs or prints nothing for a history IS an observation:
+    c["driver"] = "crash" | "hang" (with stderr tail) and the files written so far are still collected."""
+    def prep(i, c):
+        d = os.path.join(scratch, "h%d_%d" % (i, len(os.listdir(scratch))))
         os.mkdir(d)
         for t, content in c["before"].items():
             if c["mode"] == "pipe":
@@ -360,24 +373,51 @@ def drive(ctx, scratch, cases):
             with open(os.path.join(d, t), "w") as f:
                 f.write(content)
         c["dir"] = d
-        reqs.append(json.dumps({"dir": d, "mode": c["mode"], "fmt": c["fmt"],
-                                "ops": [[t, k, ([list(kv) for kv in x] if k == 0 else x)] for t, k, x in c["ops"]]}))
-    rc, out, err = sh([ctx.implrun(), "lru-ops"], inp="\n".join(reqs) + "\n", timeout=900)
-    lines = out.splitlines()
-    if rc != 0 or len(lines) != len(cases):
-        raise RuntimeError(f"implrun lru-ops failed rc={rc}: {err[-1500:]}")
-    for c, l in zip(cases, lines):
-        resp = json.loads(l)
-        c["errors"] = resp["errors"]
+        c["driver"], c["errors"], c["driver_stderr"] = "ok", [], ""
+        return json.dumps({"dir": d, "mode": c["mode"], "fmt": c["fmt"],
+                           "ops": [[t, k, ([list(kv) for kv in x] if k == 0 else x)] for t, k, x in c["ops"]]})
+
+    def collect(c):
         names = sorted({o[0] for o in c["ops"]} | set(c["before"]))
-        if c["mode"] == "pipe":
+        if c["mode"] == "pipe" and c["driver"] == "ok":
             wait_for([os.path.join(c["dir"], t) for t in {o[0] for o in c["ops"]}])
         obs = {}
         for t in names:
-            p = os.path.join(c["dir"], t)
-            obs[t] = open(p, "rb").read().decode("latin1") if os.path.exists(p) else ""
+            pth = os.path.join(c["dir"], t)
+            obs[t] = open(pth, "rb").read().decode("latin1") if os.path.exists(pth) else ""
         c["after"] = obs
         shutil.rmtree(c["dir"], ignore_errors=True)
+
+    def one(ic):
+        i, c = ic
+        req = prep(i, c)
+        rc, out, err = sh([ctx.implrun(), "lru-ops"], inp=req + "\n", timeout=60 if ctx.tier == "quick" else 240)
+        line = (out.splitlines() or [""])[0]
+        if rc == 124:
+            c["driver"] = "hang"
+        elif rc != 0 or not line.startswith("{"):
+            c["driver"] = "crash"
+        else:
+            c["errors"] = json.loads(line)["errors"]
+        c["driver_stderr"] = ("rc=%s " % rc) + (err or "")[-1200:]
+        collect(c)
+        return c
+
+    small = [(i, c) for i, c in enumerate(cases) if len(c["ops"]) <= 64]
+    big = [(i, c) for i, c in enumerate(cases) if len(c["ops"]) > 64]
+    if small:
+        reqs = [prep(i, c) for i, c in small]
+        rc, out, err = sh([ctx.implrun(), "lru-ops"], inp="\n".join(reqs) + "\n", timeout=300)
+        lines = out.splitlines()
+        if rc == 0 and len(lines) == len(small):
+            for (i, c), l in zip(small, lines):
+                c["errors"] = json.loads(l)["errors"]
+                collect(c)
+        else:                                   # somebody in the batch killed the driver: find out who, one process per history
+            for i, c in small:
+                shutil.rmtree(c["dir"], ignore_errors=True)
+            pmap(one, small)
+    pmap(one, big)
     return cases
 
 
@@ -388,6 +428,18 @@ def oracle_case(ctx, c, how):
     exp = expected_files(mode, fmt, ops, before)
     ev = routed(ops)
     n = 0
+    if c.get("driver", "ok") != "ok":
+        seen = ctx.cov.setdefault("driver_failures", {})
+        seen[c["driver"]] = seen.get(c["driver"], 0) + 1
+        if seen[c["driver"]] > 3:
+            return 0
+        distinct = len({o[0] for o in ops})
+        ctx.violation({"class": "fanout-manager-" + c["driver"], "what": "the output-handler manager %s on this history (write ... ; Close())" % (
+                           "did not return within the time limit" if c["driver"] == "hang" else "terminated abnormally / returned no result"),
+                       "how": how, "mode": mode, "fmt": fmt, "pattern": c.get("pattern"), "ops": len(ops), "distinct_targets": distinct,
+                       "driver_stderr": c.get("driver_stderr", "")[-800:], "input": brief(c),
+                       "files_complete_so_far": sum(1 for t in exp if c["after"].get(t, "") == exp[t]), "files_expected": len(exp)})
+        return 1
     if c.get("errors"):
         ctx.violation({"broken": "manager reported errors", "errors": c["errors"][:3], "how": how, "case": brief(c), "class": "manager-error"})
         return 1
@@ -422,8 +474,7 @@ def oracle_case(ctx, c, how):
                        "re-opened in append mode with a fresh record writer (file_output_handlers.go:getOutputHandlerFor)")
     else:
         rep["class"] = "fanout-content"
-    ctx.violation(rep)
-    return 1
+    return 1 if ctx.violation(rep) else 0          # a listed known finding does not use up the reporting budget
 
 
 def brief(c):
@@ -446,7 +497,7 @@ def e2e(ctx, scratch):
         return out
 
     def run(args, stdin, cwd):
-        st, out, err = mlr_run(ctx, args, stdin, timeout=120, cwd=cwd)
+        st, out, err = mlr_run(ctx, args, stdin, timeout=60, cwd=cwd)
         return st, out.decode("utf-8", "surrogateescape"), err.decode("utf-8", "replace")
 
     def readall(d):
@@ -457,14 +508,14 @@ def e2e(ctx, scratch):
                 res[os.path.relpath(p, d)] = open(p, "rb").read().decode("utf-8", "surrogateescape")
         return res
 
-    def check(name, fmt, args, recs, expect, cwd, mode="write", before=None, main_expect=None, wait=None):
+    def check(name, fmt, args, recs, expect, cwd, mode="write", before=None, main_expect=None, wait=None, stdin=None):
         """expect: {relative file: events}"""
         nonlocal n_viol
         before = before or {}
         for t, content in before.items():
             os.makedirs(os.path.dirname(os.path.join(cwd, t)) or cwd, exist_ok=True)
             open(os.path.join(cwd, t), "w").write(content)
-        st, out, err = run(args, dkvp(recs), cwd)
+        st, out, err = run(args, dkvp(recs) if stdin is None else stdin, cwd)
         if wait:
             wait_for([os.path.join(cwd, w) for w in wait])
         files = readall(cwd)
@@ -506,7 +557,7 @@ def e2e(ctx, scratch):
             rep["expected"] = exp_files[wrong[0]][:500]
         rep["class"] = cls
         rep["replay_args"] = args
-        rep["replay_stdin"] = dkvp(recs).decode()
+        rep["replay_stdin"] = (dkvp(recs) if stdin is None else stdin).decode("utf-8", "surrogateescape")
         rep["replay_expect"] = {t: exp_files[t] for t in list(exp_files)[:2000]}
         n_viol += 1 if ctx.violation(rep) else 0
         return False
@@ -619,6 +670,55 @@ def e2e(ctx, scratch):
     k += 1; d = fresh("e%d" % k)
     check("tee-redirect:odd-names", "dkvp", ["put", "-q", 'tee > "o ".$k.".d", $*'], odd2,
           {"o " + g + ".d": evs(rs) for g, rs in og2.items()}, d, main_expect="")
+    # split -g with 2-3 group-by fields whose values contain commas and other name-hostile bytes: the partition is by the TUPLE
+    # of values; ("x,y","z") and ("x","y,z") are different groups with different files (names as split builds them: values joined
+    # by "_", URL-escaped, prefix_<name>.<suffix>); tuples that really give the same name share the file, in stream order
+    pool = ["x", "y", "z", "x,y", "y,z", "x,y,z", ",", "a b", "a_b", "b", "c/d", "p%2Cq", "p,q", "k=v", "e&f", "..", "-", "Ü"]
+    for nfields, fmt in ((2, "dkvp"), (3, "json"), (2, "csv")) + (((3, "dkvp"), (2, "json")) if ctx.tier == "thorough" else ()):
+        fields = ["g%d" % j for j in range(nfields)]
+        tuples = [("x,y", "z", "w")[:nfields], ("x", "y,z", "w")[:nfields], ("x", "y", "z,w")[:nfields], ("x,y", "z,w", "")[:nfields]]
+        tuples = [tuple(v or "q" for v in t) for t in tuples] + [tuple(rng.choice(pool) for _ in range(nfields)) for _ in range(10)]
+        trecs = []
+        for rnd in range(3):
+            order = list(tuples)
+            rng.shuffle(order)
+            for t in order:
+                trecs.append([(f, v) for f, v in zip(fields, t)] + [("n", "r%d" % len(trecs))])
+        trecs.append([("n", "nogroup")])                                   # lacks the group-by fields: the _ungrouped target
+        byname = {}
+        for r in trecs:
+            if len(r) == 1:
+                nm = "split_ungrouped." + fmt
+            else:
+                nm = "split_" + urllib.parse.quote_plus("_".join(v for _, v in r[:nfields]).encode("utf-8"), safe="") + "." + fmt
+            byname.setdefault(nm, []).append(r)
+        if fmt == "csv":                                                    # CSV target files must not mix key lists
+            byname = {nm: rs for nm, rs in byname.items()}
+        jin = ("[" + ",\n".join(json.dumps(dict(r), ensure_ascii=False) for r in trecs) + "]\n").encode("utf-8")
+        k += 1; d = fresh("e%d" % k)
+        if fmt == "csv":
+            # quoting is C01's subject: compare the records parsed back by mlr instead of bytes
+            st, out, err = run(["--ijson", "--ocsv", "split", "-g", ",".join(fields)], jin, d)
+            files = readall(d)
+            ctx.count(("e2e", "split-g:tuple-keys", fmt, nfields)); ctx.dist("e2e:split-g-tuple")
+            got = {}
+            for nm in files:
+                st2, o2, e2 = run(["--icsv", "--ojson", "cat", nm], b"", d)
+                try:
+                    got[nm] = [[(kk, str(vv)) for kk, vv in r.items()] for r in json.loads(o2)] if o2.strip() else []
+                except Exception:
+                    got[nm] = None
+            want = {nm: [[(kk, vv) for kk, vv in r] for r in rs] for nm, rs in byname.items()}
+            if st != 0 or got != want:
+                wrong = sorted(set(nm for nm in set(got) | set(want) if got.get(nm) != want.get(nm)))
+                n_viol += 1 if ctx.violation({"class": "fanout-content", "e2e": "split-g:tuple-keys", "how": "mlr --ijson --ocsv split -g " + ",".join(fields),
+                                              "status": st, "stderr": err[-300:], "wrong_or_missing_files": wrong[:6], "fmt": fmt,
+                                              "observed": {nm: got.get(nm) for nm in wrong[:2]}, "expected": {nm: want.get(nm) for nm in wrong[:2]},
+                                              "replay_args": ["--ijson", "--ocsv", "split", "-g", ",".join(fields)], "replay_stdin": jin.decode("utf-8"),
+                                              "replay_expect_records": want}) else 0
+        else:
+            check("split-g:tuple-keys", fmt, ["--ijson", oflag[fmt], "--jvquoteall", "split", "-g", ",".join(fields)], trecs,
+                  {nm: evs(rs) for nm, rs in byname.items()}, d, main_expect=("[\n]\n" if fmt == "json" else ""), stdin=jin)   # JSON in, JSON out, no records: "[ ]"
     # dump > and emitf > at end of stream
     k += 1; d = fresh("e%d" % k)
     check("dump-redirect", "json", ["--ojson", "put", "-q", '@c[$k] = $i; end { dump > "dump.out" }'], recs,
@@ -725,7 +825,7 @@ def run(ctx):
         nviol = 0
         for i, c in enumerate(cases):
             ctx.count(("hist", c["mode"], c["fmt"], c["pattern"], tuple((o[0], o[1], str(o[2])) for o in c["ops"])))
-            if nviol < 6:
+            if nviol < 6:                       # budget of REPORTED violations; every history is still evaluated until it is used up
                 nviol += oracle_case(ctx, c, "implrun lru-ops")
         for i in (0, 5, len(cases) - 1, len(cases) - 12):
             c = cases[i]
@@ -740,7 +840,7 @@ def run(ctx):
         ctx.violation({"broken": why}, found_input=False)
         return
     # big histories first so that the parallel shards are balanced
-    order = sorted([i for i in range(len(cases)) if cases[i]["fmt"] in FMTN], key=lambda i: -len(cases[i]["ops"]))
+    order = sorted([i for i in range(len(cases)) if cases[i]["fmt"] in FMTN and cases[i].get("driver", "ok") == "ok"], key=lambda i: -len(cases[i]["ops"]))
     ctx.cov["oracle_only_histories(pprint)"] = len(cases) - len(order)
     nshards = max(1, int(os.environ.get("VERIF_JOBS", "2")))      # parallel coqc processes
     order = [i for r in range(nshards) for i in order[r::nshards]]
@@ -770,8 +870,23 @@ def replay(ctx, path):
     obj = json.loads(Path(path).read_text())
     scratch = tempfile.mkdtemp(prefix="verif-c20-", dir="/tmp")
     try:
-        if "replay_args" in obj:
-            st, out, err = mlr_run(ctx, obj["replay_args"], obj["replay_stdin"].encode(), timeout=120, cwd=scratch)
+        if "replay_expect_records" in obj:
+            st, out, err = mlr_run(ctx, obj["replay_args"], obj["replay_stdin"].encode("utf-8"), timeout=60, cwd=scratch)
+            got = {}
+            for nm in os.listdir(scratch):
+                st2, o2, e2 = mlr_run(ctx, ["--icsv", "--ojson", "cat", nm], b"", timeout=60, cwd=scratch)
+                try:
+                    got[nm] = [[[kk, str(vv)] for kk, vv in r.items()] for r in json.loads(o2.decode("utf-8"))] if o2.strip() else []
+                except Exception:
+                    got[nm] = None
+            want = {nm: [[list(kv) for kv in r] for r in rs] for nm, rs in obj["replay_expect_records"].items()}
+            ctx.count(("replay", path))
+            wrong = sorted(nm for nm in set(got) | set(want) if got.get(nm) != want.get(nm))
+            print("replay: mlr %s -> status %s, %d target files wrong or missing" % (" ".join(obj["replay_args"]), st, len(wrong)))
+            if wrong or st != 0:
+                ctx.violation(dict(obj, replayed=True, wrong_files=wrong[:5]))
+        elif "replay_args" in obj:
+            st, out, err = mlr_run(ctx, obj["replay_args"], obj["replay_stdin"].encode("utf-8", "surrogateescape"), timeout=120, cwd=scratch)
             time.sleep(0.5)
             wrong = []
             for t, want in obj["replay_expect"].items():
